@@ -288,7 +288,7 @@ def job_triples(n, seed):
 
 
 def jobs(tier, seed):
-    k = 1 if tier == "quick" else 30
+    k = 1 if tier == "quick" else 12
     js = []
     for s in range(12):
         js.append({"fn": "vf.props.c08:job_histories", "args": {"n": 1200 * k, "seed": seed * 1000 + s}})
